@@ -61,18 +61,65 @@ def go_upper(s):
 # Coq literals
 # ----------------------------------------------------------------------------------------------
 
+class Interner:
+    """Coq parses string / number literals slowly (about 12 kB of string literal per second), so every
+    distinct string of a shard is defined once and referred to by name."""
+
+    def __init__(self):
+        self.map = {}
+        self.defs = []
+
+    def s(self, text):
+        nm = self.map.get(text)
+        if nm is None:
+            nm = "s%d" % len(self.map)
+            self.map[text] = nm
+            self.defs.append('Definition %s : string := "%s".' % (nm, text.replace('"', '""')))
+        return nm
+
+    def z(self, n):
+        key = ("z", n)
+        nm = self.map.get(key)
+        if nm is None:
+            nm = "z%d" % len(self.map)
+            self.map[key] = nm
+            self.defs.append("Definition %s : Z := (%d)%%Z." % (nm, n))
+        return nm
+
+    def header(self):
+        return "\n".join(self.defs) + "\n"
+
+
+_I = None
+
+
+def set_interner(i):
+    global _I
+    _I = i
+
+
 def cq_str(s):
-    if all(32 <= ord(c) < 127 for c in s):
-        return '"' + s.replace('"', '""') + '"'
-    return "(sb [%s]%%N)" % ";".join(str(ord(c)) for c in s)
+    """Coq string term for a byte string (latin-1 text). Coq string literals may hold any byte; only
+    the double quote is escaped (doubled). Files must be written as latin-1 bytes."""
+    if _I is not None:
+        return _I.s(s)
+    return '"' + s.replace('"', '""') + '"'
 
 
 def cq_z(n):
     n = int(n)
+    if _I is not None and n > 9:
+        return _I.z(n)
     return "%d" % n if n >= 0 else "(%d)" % n
 
 
+def _tkname(c):
+    return "Tk%d" % c if c >= 0 else "Tkm%d" % (-c)
+
+
 def tok_term(t):
+    if -2 <= t[0] <= 120:
+        return "(%s %s)" % (_tkname(t[0]), cq_str(t[1]))
     return "(mkTok %s %s)" % (cq_z(t[0]), cq_str(t[1]))
 
 
@@ -81,7 +128,7 @@ RAWCLASS = {"Ident": "RIdent", "Int": "RInt", "Float": "RFloat", "Char": "RChar"
 
 
 def raw_term(r):
-    return "(mkRaw %s %s %s)" % (RAWCLASS[r[0]], cq_str(r[1]), "true" if r[2] == 61 else "false")
+    return "(%s%s %s)" % (RAWCLASS[r[0]], "e" if r[2] == 61 else "n", cq_str(r[1]))
 
 
 def cq_list(items):
@@ -264,7 +311,75 @@ Import ListNotations.
 Open Scope string_scope.
 Open Scope list_scope.
 Open Scope Z_scope.
-"""
+""" + "".join("Definition %s := mkTok (%d).\n" % (_tkname(c), c) for c in range(-2, 121)) + "".join(
+    "Definition %sn (s : string) := mkRaw %s s false.\nDefinition %se (s : string) := mkRaw %s s true.\n" % (c, c, c, c)
+    for c in sorted(set(RAWCLASS.values())))
+
+
+def run_coq_bytes(name, text, timeout=1800):
+    """like vlib.run_coq_text, but the file is written as latin-1 bytes (string literals hold raw
+    bytes) and coqc gets an unlimited C stack (20 000-element lists and 5000-deep trees overflow the
+    default 8 MB while being parsed)"""
+    d = os.path.join(vlib.BUILD, "cases", name)
+    os.makedirs(d, exist_ok=True)
+    path = os.path.join(d, "cases.v")
+    with open(path, "wb") as f:
+        f.write(text.encode("latin-1"))
+    cmd = "ulimit -s unlimited 2>/dev/null || ulimit -s 4000000; exec timeout %d coqc -R %s Mkdb -Q %s Cases %s" % (
+        timeout, vlib.COQ, d, path)
+    return vlib.sh(["bash", "-c", cmd], cwd=d, timeout=timeout + 30)
+
+
+def eval_cases(name, thunks, sizes, ctype, defs, header=None, budget=400000, maxn=1500, workers=12):
+    """Evaluate boolean functions `defs` (NAME -> Coq function) over cases inside Coq.
+    thunks: callables returning the Coq term of a case (called with the shard's interner active);
+    sizes: rough byte size of each case (shards are bounded in bytes and in count).
+    Returns (ok, {NAME: [indices of cases on which the function is false]}, log)."""
+    from concurrent.futures import ThreadPoolExecutor
+    import time as _t0
+    t0 = _t0.time()
+    shards, cur, size = [], [], 0
+    for i, sz in enumerate(sizes):
+        if cur and (size + sz > budget or len(cur) >= maxn):
+            shards.append(cur)
+            cur, size = [], 0
+        cur.append(i)
+        size += sz
+    if cur:
+        shards.append(cur)
+    texts = []
+    for sh in shards:
+        it = Interner()
+        set_interner(it)
+        try:
+            terms = [thunks[i]() for i in sh]
+        finally:
+            set_interner(None)
+        buf = [header or OBS_HEADER, it.header(), "\nDefinition cases : list (%s) := [\n" % ctype, ";\n".join(terms), "\n].\n"]
+        for nm, fn in defs.items():
+            buf.append("Definition %s := Eval vm_compute in bad_idx (%s) cases.\nPrint %s.\n" % (nm, fn, nm))
+        texts.append("".join(buf))
+    results = {nm: [] for nm in defs}
+    ok, logs = True, []
+    import time as _t
+    t1 = _t.time()
+    with ThreadPoolExecutor(max_workers=workers) as ex:
+        outs = list(ex.map(lambda k: run_coq_bytes("%s_%d" % (name, k), texts[k]), range(len(shards))))
+    vlib.log("    [%s] %d cases, %d shards, %d bytes: terms %.1fs, coqc %.1fs" % (
+        name, len(thunks), len(shards), sum(len(t) for t in texts), t1 - t0, _t.time() - t1))
+    for k, (rc, out) in enumerate(outs):
+        if rc != 0:
+            ok = False
+            logs.append("shard %d rc=%d\n%s" % (k, rc, out[-3000:]))
+            continue
+        for nm in defs:
+            idx = vlib._parse_def(out, nm)
+            if idx is None:
+                ok = False
+                logs.append("shard %d: cannot parse %s\n%s" % (k, nm, out[-2000:]))
+            else:
+                results[nm].extend(shards[k][j] for j in idx)
+    return ok, results, "\n".join(logs)
 
 
 # ----------------------------------------------------------------------------------------------
